@@ -353,6 +353,14 @@ def gen_case(sub, routines, scn_id, connected=False, nmax=12, invalid_frac=0.0):
                 W[x, :] = 0
                 W[:, x] = 0
             meta['isolated_added'] = True
+        elif rnd.random() < 0.12 and len(W) > 5:
+            # a pendant node (degree 1) in an otherwise unchanged, possibly dense graph
+            x = rnd.randrange(len(W))
+            y = rnd.choice([z for z in range(len(W)) if z != x])
+            W[x, :] = 0
+            W[:, x] = 0
+            W[x, y] = W[y, x] = 1.0
+            meta['pendant_added'] = True
         params['alpha'] = rnd.choice((0, 0.3, 0.7, 1, 1))
     elif connected or routine in CONNECTED:
         W, meta = gen.connected_graph(rnd, directed, nmax=nmax, wkind=wkind)
